@@ -312,7 +312,17 @@ func fieldErrChecked(p *Program, f *ssa.Function, st *ssa.Store) (bool, string) 
 	}
 	found := false
 	why := fmt.Sprintf("no load of field %s that is compared with nil and fails the compile was found in %s", fld, fnName(root))
-	for _, g := range withClosures(root) {
+	scope := withClosures(root)
+	if own != nil {
+		// a named struct type: the element can be handed to another function of the
+		// package (e.g. the slice of per-file results returned to the caller)
+		for _, g := range p.RepoFuncs() {
+			if fnPkgPath(g) == fnPkgPath(root) && g != root && g.Parent() == nil {
+				scope = append(scope, withClosures(g)...)
+			}
+		}
+	}
+	for _, g := range scope {
 		eachInstr(g, func(_ *ssa.BasicBlock, i ssa.Instruction) {
 			ld, ok := i.(*ssa.UnOp)
 			if !ok || ld.Op != token.MUL {
@@ -455,6 +465,122 @@ func c06NamesFile(c *Check) {
 		}
 	}
 	n := 0
+	// allNamed: every non-nil error return of a (non per-file) callee of this
+	// package names the file by the same criteria (e.g. it returns the joined
+	// errors of per-file call-backs)
+	var valueNames func(ev ssa.Value, depth int) bool
+	allNamedMemo := map[*ssa.Function]int{}
+	allNamed := func(g *ssa.Function, depth int) bool {
+		if r, ok := allNamedMemo[g]; ok {
+			return r == 1
+		}
+		allNamedMemo[g] = 0
+		ei := errorResultIndex(g.Signature)
+		if ei < 0 || len(g.Blocks) == 0 || depth > 3 {
+			return false
+		}
+		ok := true
+		some := false
+		for _, b := range g.Blocks {
+			ret, isRet := b.Instrs[len(b.Instrs)-1].(*ssa.Return)
+			if !isRet {
+				continue
+			}
+			vals, cell := returnValues(ret)
+			if cell[ei] {
+				ok = false
+				continue
+			}
+			if isNilConst(vals[ei]) {
+				continue
+			}
+			some = true
+			if !valueNames(vals[ei], depth+1) {
+				ok = false
+			}
+		}
+		if ok && some {
+			allNamedMemo[g] = 1
+		}
+		return ok && some
+	}
+	valueNames = func(ev ssa.Value, depth int) bool {
+		named := false
+		// (a) constructed from the file name; (b) returned by a callee that was given the file name or is itself per-file
+		var visit func(v ssa.Value, d int)
+		seen := map[ssa.Value]bool{}
+		visit = func(v ssa.Value, d int) {
+			if v == nil || seen[v] || d > 10 {
+				return
+			}
+			seen[v] = true
+			switch x := v.(type) {
+			case *ssa.Phi:
+				// every edge must name the file
+				all := true
+				for _, e := range x.Edges {
+					if isNilConst(e) {
+						continue
+					}
+					sub := false
+					old := named
+					named = false
+					visit(e, d+1)
+					sub = named
+					named = old
+					if !sub {
+						all = false
+					}
+				}
+				if all {
+					named = true
+				}
+			case *ssa.MakeInterface:
+				visit(x.X, d+1)
+			case *ssa.ChangeInterface:
+				visit(x.X, d+1)
+			case *ssa.Extract:
+				visit(x.Tuple, d+1)
+			case *ssa.UnOp:
+				if x.Op == token.MUL {
+					// load of a field (out.err) or cell
+					if derives(x, func(v ssa.Value) bool { return false }, nil) {
+						return
+					}
+					if _, fld, _, ok := fieldOfAddr(x.X); ok && fld == "err" {
+						// the stored error comes from a per-file callee (checked at its store)
+						named = true
+					}
+				}
+			case *ssa.Call:
+				if sc := staticCallee(x); sc != nil && perFile[sc] {
+					named = true
+					return
+				}
+				if sc := staticCallee(x); sc != nil && fnPkgPath(sc) == pk.PkgPath && allNamed(sc, depth) {
+					named = true
+					return
+				}
+				for _, a := range x.Call.Args {
+					if dependsOnFile(a) {
+						named = true
+						return
+					}
+				}
+				if x.Call.IsInvoke() {
+					// g.Wait(): errors of the per-file callbacks
+					if o := x.Call.Method; o != nil && o.Name() == "Wait" {
+						named = true
+					}
+				}
+				if o := calleeObj(x); o != nil && objIs(o, "golang.org/x/sync/errgroup", "Group.Wait") {
+					named = true
+				}
+			}
+		}
+		visit(ev, 0)
+		return named
+	}
 	for f := range perFile {
 		ei := errorResultIndex(f.Signature)
 		for _, b := range f.Blocks {
@@ -469,77 +595,8 @@ func c06NamesFile(c *Check) {
 			n++
 			ev := vals[ei]
 			key := fmt.Sprintf("%s|error from %s", fnName(f), errSource(ev))
-			named := false
 			why := "the returned error is built without the file name and does not come from a per-file callee"
-			// (a) constructed from the file name; (b) returned by a callee that was given the file name or is itself per-file
-			var visit func(v ssa.Value, d int)
-			seen := map[ssa.Value]bool{}
-			visit = func(v ssa.Value, d int) {
-				if v == nil || seen[v] || d > 10 {
-					return
-				}
-				seen[v] = true
-				switch x := v.(type) {
-				case *ssa.Phi:
-					// every edge must name the file
-					all := true
-					for _, e := range x.Edges {
-						if isNilConst(e) {
-							continue
-						}
-						sub := false
-						old := named
-						named = false
-						visit(e, d+1)
-						sub = named
-						named = old
-						if !sub {
-							all = false
-						}
-					}
-					if all {
-						named = true
-					}
-				case *ssa.MakeInterface:
-					visit(x.X, d+1)
-				case *ssa.ChangeInterface:
-					visit(x.X, d+1)
-				case *ssa.Extract:
-					visit(x.Tuple, d+1)
-				case *ssa.UnOp:
-					if x.Op == token.MUL {
-						// load of a field (out.err) or cell
-						if derives(x, func(v ssa.Value) bool { return false }, nil) {
-							return
-						}
-						if _, fld, _, ok := fieldOfAddr(x.X); ok && fld == "err" {
-							// the stored error comes from a per-file callee (checked at its store)
-							named = true
-						}
-					}
-				case *ssa.Call:
-					if sc := staticCallee(x); sc != nil && perFile[sc] {
-						named = true
-						return
-					}
-					for _, a := range x.Call.Args {
-						if dependsOnFile(a) {
-							named = true
-							return
-						}
-					}
-					if x.Call.IsInvoke() {
-						// g.Wait(): errors of the per-file callbacks
-						if o := x.Call.Method; o != nil && o.Name() == "Wait" {
-							named = true
-						}
-					}
-					if o := calleeObj(x); o != nil && objIs(o, "golang.org/x/sync/errgroup", "Group.Wait") {
-						named = true
-					}
-				}
-			}
-			visit(ev, 0)
+			named := valueNames(ev, 0)
 			if !named && callersNameFile(p, f, ei, dependsOnFile) {
 				named = true // a helper: every caller wraps its error with the file name
 			}
